@@ -98,5 +98,27 @@ pub fn run() -> i32 {
             Err((m, l)) => println!("skewed strings: PANIC {m} at {l}; first repo panic: {:?}", crate::quiet::take_repo_panic()),
         }
     }
+    // forced full-zip on a small nullable Int32 column
+    for version in [lance_encoding::version::LanceFileVersion::V2_1, lance_encoding::version::LanceFileVersion::V2_2] {
+        for vals in [vec![Some(0), None, Some(1), Some(2), Some(3)]] {
+            for split in [false, true] {
+                // slice away the only null: the validity buffer stays, null_count = 0
+                let arr = Int32Array::from(vals.clone()).slice(2, 3);
+                let md: std::collections::HashMap<String, String> = [("lance-encoding:structural-encoding".to_string(), "fullzip".to_string())].into_iter().collect();
+                let schema = Arc::new(arrow_schema::Schema::new(vec![arrow_schema::Field::new("col", arrow_schema::DataType::Int32, true).with_metadata(md)]));
+                let batches: Vec<RecordBatch> = if split {
+                    vec![RecordBatch::try_new(schema.clone(), vec![Arc::new(arr.slice(0, 1))]).unwrap(), RecordBatch::try_new(schema.clone(), vec![Arc::new(arr.slice(1, 2))]).unwrap()]
+                } else {
+                    vec![RecordBatch::try_new(schema.clone(), vec![Arc::new(arr)]).unwrap()]
+                };
+                let out = crate::quiet::run_attributed(|| rt.block_on(async {
+                    let f = crate::fileio::write_file(&batches, schema.clone(), version, None, "probe5").await?;
+                    let r = crate::fileio::open(&f).await?;
+                    crate::fileio::read_all(&r, 4096).await
+                }));
+                println!("fullzip {version} {vals:?} split={split}: {}", match out { Ok(b) => format!("ok {:?}", b.iter().map(|x| format!("{:?}", x.column(0))).collect::<Vec<_>>()).replace('\n', " "), Err(e) => format!("FAILED {e}") });
+            }
+        }
+    }
     0
 }
